@@ -4,7 +4,7 @@ import ast
 from ..core import get_core
 from .. import corerules as R
 from .c17 import get_catalogue
-from .c18 import const_false
+from .c18 import const_false, template_identity
 
 
 def check(tree, rep, tier='quick', seed=0):
@@ -24,6 +24,7 @@ def check(tree, rep, tier='quick', seed=0):
     R.k22e_integer_lines_read_back_exactly(core, rep)   # the text the filler maps is the solved text (no unquoting / detours on read-back)
     R.k11e_parser_options(core, rep)     # the solution text reaches the filler uncut
     cat = get_catalogue(tree)
+    template_identity(tree, cat, rep, 'R19.10')   # 'files exactly the right forms': each into its own blank
     n = 0
     for y in cat.years:
         seen = {}
